@@ -72,3 +72,27 @@ Proof.
   rewrite L_C5_R. cbv zeta. destruct (Rlt_dec _ 0); [lra | ]. destruct (Rlt_dec 1 _); [lra | ].
   apply C5_range. lra.
 Qed.
+
+(* L_infinity: with e1 = exp(-1/y), e2 = exp(-1/(1-y)) (any positive reals) the value lies in [0,1]; 0 below, 1 above *)
+Theorem L_infinity_range e1 e2 d dc : 0 < e1 -> 0 < e2 -> 0 <= L_infinity RNum e1 e2 d dc <= 1.
+Proof.
+  intros H1 H2. unfold L_infinity, f_inf, ndec. cbn [nofZ nsub nmul ndiv nadd nltb nzero none RNum]. unfold Rltb.
+  set (y := (d - 1 / 10 * dc) / (9 / 10 * dc)).
+  destruct (Rlt_dec y 0); [lra | ]. destruct (Rlt_dec 1 y); [lra | ].
+  destruct (Rlt_dec y 0); [lra | ]. destruct (Rlt_dec (1 - y) 0); [lra | ].
+  assert (Hs : 0 < e1 + e2) by lra.
+  split.
+  - apply Rlt_le. apply Rdiv_lt_0_compat; assumption.
+  - apply (Rmult_le_reg_r (e1 + e2)); [exact Hs | ]. unfold Rdiv. rewrite Rmult_assoc, Rinv_l by lra. lra.
+Qed.
+Theorem L_infinity_exp_range d dc :
+  let y := L_arg RNum d dc in 0 <= L_infinity RNum (exp (- 1 / y)) (exp (- 1 / (1 - y))) d dc <= 1.
+Proof. intros y. apply L_infinity_range; apply exp_pos. Qed.
+Theorem L_infinity_outside e1 e2 d dc :
+  let y := L_arg RNum d dc in (y < 0 -> L_infinity RNum e1 e2 d dc = 0) /\ (1 < y -> L_infinity RNum e1 e2 d dc = 1).
+Proof.
+  unfold L_arg, L_infinity, ndec. cbn [nofZ nsub nmul ndiv nadd nltb nzero none RNum]. unfold Rltb.
+  set (y := (d - 1 / 10 * dc) / (9 / 10 * dc)). cbv zeta. split; intros H.
+  - destruct (Rlt_dec y 0); [reflexivity | lra].
+  - destruct (Rlt_dec y 0); [lra | ]. destruct (Rlt_dec 1 y); [reflexivity | lra].
+Qed.
